@@ -1240,6 +1240,9 @@ func runInputCase(r *rng, caseID string) map[string]any {
 	sort.Slice(seen, func(i, j int) bool { return seen[i].(map[string]any)["src"].(string) < seen[j].(map[string]any)["src"].(string) })
 	out["seen"] = seen
 	out["log"] = log
+	if leg := inputRunLeg(r, text, doc); leg != nil {
+		out["run_leg"] = leg
+	}
 	return out
 }
 
